@@ -50,7 +50,7 @@ def child(spec, hashseed):
         json.dump(spec, f)
     e = dict(os.environ, PYTHONHASHSEED=str(hashseed))
     try:
-        r = subprocess.run([sys.executable, "-m", "mon.scenario", sp], cwd=env.VERIF, env=e, timeout=180,
+        r = subprocess.run([sys.executable, "-m", "mon.scenario", sp], cwd=env.VERIF, env=e, timeout=900,
                            stdout=subprocess.PIPE, stderr=subprocess.PIPE)
         if r.returncode != 0:
             return None, r.stderr.decode(errors="replace")[-400:]
@@ -271,6 +271,9 @@ def run_case(rs, ctx):
     for desc, spec, hs in runs:
         res, err = child(spec, hs)
         ctx.count("fresh_interpreters")
+        if res is None and err == "timeout":
+            ctx.count("fresh_interpreter_timeouts")  # a watchdog firing is inconclusive for this case, never a verdict
+            return
         if res is None:
             ctx.violation("%s: scenario could not be executed in a fresh interpreter (%s): %s" % (gen.cfg_sig(cfg), desc, err), wit,
                           kind="child_failed")
